@@ -4,6 +4,7 @@ import (
 	"encoding/hex"
 	"encoding/json"
 	"fmt"
+	"sort"
 	"strconv"
 	"strings"
 	"time"
@@ -59,7 +60,13 @@ func (gn *GlobalNode) Decode(input []byte) error {
 }
 
 func (gn *GlobalNode) updateConfig(fields map[string]string) error {
-	for key, value := range fields {
+	keys := make([]string, 0, len(fields))
+	for key := range fields {
+		keys = append(keys, key)
+	}
+	sort.Strings(keys)
+	for _, key := range keys {
+		value := fields[key]
 		switch key {
 		case Settings[PourAmount]:
 			fAmount, err := strconv.ParseFloat(value, 64)
@@ -120,7 +127,9 @@ func (gn *GlobalNode) updateConfig(fields map[string]string) error {
 			gn.OwnerId = value
 
 		default:
-			return gn.setCostValue(key, value)
+			if err := gn.setCostValue(key, value); err != nil {
+				return err
+			}
 		}
 	}
 	return nil
